@@ -189,6 +189,7 @@ fn judge_place(rec: &mut Recorder, c: &place::PlaceCase, ex: Exec, _hello: &Valu
     rec.eval(|| json!({"case": c, "target": format!("{:#x}", o.target_addr), "trampoline_page": o.tramp_page.map(|p| format!("{p:#x}")), "fake": o.fake_addr.map(|p| format!("{p:#x}")), "status": o.status, "decode": o.decode_trace, "calls": o.calls}));
     let tclass = match &c.target {
         TargetSel::Real(_) => "real".to_string(),
+        TargetSel::RealAsync(_) => "real-async-poll".to_string(),
         TargetSel::Synth { class, .. } => CLASS_RANGES[*class as usize % 5].2.to_string(),
     };
     let sig = |s: &str| format!("{prop}/native/{s}");
@@ -202,6 +203,7 @@ fn judge_place(rec: &mut Recorder, c: &place::PlaceCase, ex: Exec, _hello: &Valu
     }
     // installed
     let flav = match &c.fake {
+        _ if matches!(c.target, TargetSel::RealAsync(_)) => "async_return".to_string(),
         FakeSel::Rust { kind, .. } => format!("{kind:?}"),
         FakeSel::Synth { api, .. } => format!("synth-api{}", api % 3),
     };
